@@ -1,4 +1,5 @@
 import YardlProofs.Imports
+import YardlProofs.Namespaces
 import YardlGenerated.Tables
 
 /-!
@@ -83,5 +84,22 @@ def diamondAtLimit (first second : Nat) : World :=
 theorem order_dependence_at_limit :
     errOf (load (diamondAtLimit 1 10) maxImportDepth 0) = some .depth ∧
     errOf (load (diamondAtLimit 10 1) maxImportDepth 0) = none := by decide
+
+/-! ### usable from every importer: `References` after `parsePackageNamespaces` -/
+
+/-- for every acyclic import graph (`rank` decreases along every import — what a successful load and the dependency sort give), after the
+    memoised depth-first walk of `parsePackageNamespaces` every parsed namespace refers to exactly the namespaces of the packages it imports, in
+    manifest order — also when an imported package had already been parsed through another importer (a diamond, a shortcut edge) -/
+theorem every_importer_references_all_its_imports (G : Nat → List Nat) (rank : Nat → Nat) (hr : ∀ n, ∀ i ∈ G n, rank i < rank n)
+    (fuel root : Nat) (hf : rank root < fuel) :
+    ∀ m, Namespaces.has (Namespaces.parseNs G fuel root []) m = true →
+      Namespaces.get (Namespaces.parseNs G fuel root []) m = some (G m) :=
+  Namespaces.references_are_the_imports G rank hr fuel root hf
+
+/-- the hypotheses are met by the shortcut world Top → [Basic, Mid], Mid → [Basic] — and Mid does refer to Basic although Top reached it first -/
+example :
+    let G : Nat → List Nat := fun n => if n = 0 then [1, 2] else if n = 2 then [1] else []
+    Namespaces.parseNs G 5 0 [] = [(0, [1, 2]), (1, []), (2, [1])] := by decide
+
 
 end Yardl.C18
